@@ -3,6 +3,8 @@ import Goflow.Gen.C05
 import Goflow.Gen.C03
 import Goflow.Gen.C04
 import Goflow.Gen.C07
+import Goflow.Gen.C17
+import Goflow.Gen.C18
 import Goflow.Gen.C19
 import Goflow.Gen.C16
 import Goflow.Gen.C12
@@ -97,6 +99,14 @@ def execOp (st : DState) (line : String) : DState × Option (List String) :=
     -- write-under-read-lock protocol: Proofs/C19.lean shows that for every interleaving no Send fails
     -- and every message is written exactly once
     (st, some ["res ok failed=[] missing=[] dup=[] junk=0"])
+  | ["udp", _, _, _, _, _, _] =>
+    -- Proofs/C17.lean: conservation, disjointness, blocking_no_drop, buffer_exclusive for every schedule
+    (st, some ["res ok dup=0 both=0 corrupt=0 unaccounted=0 blockingdrops=0 stop=ok leak=0 rebind=1"])
+  | ["updown", _, _, _, _, calls] =>
+    let cs := calls.toList.map fun c => if c = 'S' then Conc.Receiver.Call.start else Conc.Receiver.Call.stop
+    -- the `ready`-channel protocol of the code (callResults), proved equal to the specification in Proofs/C18.lean
+    (st, some ["res ok results=" ++ ",".intercalate ((Conc.Receiver.callResults true cs).map fun e => if e then "1" else "0") ++ " corrupt=0 leak=0 rebind=1"])
+  | ["drain", _, _, _, _] => (st, some ["res ok stop=ok undecoded=0"])
   | ["poison", _, _] => (st, some ["res ok"])      -- the model has no message pool: every message starts from Reset()
   | ["pkt", pid, iphex, port, recv, hex] =>
     match st.pipes.lookup pid, parseHex iphex, parseHex hex with
@@ -130,6 +140,8 @@ def genOps (prop : String) (seed n : Nat) : List String :=
   | "C03" => Gen.run seed (Gen.C03.gen n)
   | "C04" => Gen.run seed (Gen.C04.gen n)
   | "C07" => Gen.run seed (Gen.C07.gen n)
+  | "C17" => Gen.run seed (Gen.C17.gen n)
+  | "C18" => Gen.run seed (Gen.C18.gen n)
   | "C19" => Gen.run seed (Gen.C19.gen n)
   | "C16" => Gen.C16.gen n
   | "C12" => Gen.run seed (Gen.C12.gen n)
